@@ -202,7 +202,7 @@ Definition run_fees (p : profile) (s : bytes) : bytes :=
   | None => err "items"
   | Some outs =>
       let assets := fold_right insert_sorted [] (map fst outs) in
-      match all_some (map (fun a => match fee_in p outs a with Totality.Val v => Some (dec_of_N a ++ L ":" ++ dec_of_N v) | _ => None end) assets) with
+      match all_some (map (fun a => match fee_in outs a with Totality.Val v => Some (dec_of_N a ++ L ":" ++ dec_of_N v) | _ => None end) assets) with
       | None => L "panic"
       | Some l => let t := match l with [] => L "-" | _ => join (L ",") l end in L "ok in=" ++ t ++ L " all=" ++ t end end.
 Definition run_commit (len : N) (valid : bool) (buf : bytes) : bytes :=
